@@ -93,6 +93,38 @@ func (a c11Attr) apply(tr *message.Transform) {
 	}
 }
 
+// Descriptors handed out earlier must keep describing the algorithm they were obtained for: several negotiations are in
+// flight at a time, so a descriptor object that a later decode re-parameterises (a shared, mutable instance) maps the
+// EARLIER transform to a different key size. The ledger keeps the last descriptors handed out; whenever a new one is
+// obtained all held ones are asked again.
+type c11HeldDesc struct {
+	what   string
+	get    func() (id uint16, keyLen int)
+	id     uint16
+	keyLen int
+}
+
+var c11Held []c11HeldDesc
+
+func c11Hold(what string, id uint16, keyLen int, get func() (uint16, int)) error {
+	for _, h := range c11Held {
+		var gid uint16
+		var gkl int
+		if err := probe.Try(func() error { gid, gkl = h.get(); return nil }); err != nil {
+			return fmt.Errorf("descriptor obtained earlier for %s panics when asked again: %v", h.what, err)
+		}
+		if gid != h.id || gkl != h.keyLen {
+			return fmt.Errorf("descriptor obtained earlier for %s now reports id %d / key length %d (was %d / %d) after %s was decoded: descriptors of different negotiations share state",
+				h.what, gid, gkl, h.id, h.keyLen, what)
+		}
+	}
+	c11Held = append(c11Held, c11HeldDesc{what: what, get: get, id: id, keyLen: keyLen})
+	if len(c11Held) > 24 {
+		c11Held = c11Held[len(c11Held)-24:]
+	}
+	return nil
+}
+
 // decodeAll runs the 7 decode functions on a transform with the given id/attribute (one type at a time)
 // and checks the reference mapping.
 func c11CheckDecode(id uint16, a c11Attr, viaWire bool) error {
@@ -125,6 +157,12 @@ func c11CheckDecode(id uint16, a c11Attr, viaWire bool) error {
 		if e.TransformID() != 12 || e.GetKeyLength() != int(a.Value)/8 || ek.TransformID() != 12 || ek.GetKeyLength() != int(a.Value)/8 {
 			return fmt.Errorf("%s: mapped to key length %d / %d octets", where("encr.DecodeTransform"), e.GetKeyLength(), ek.GetKeyLength())
 		}
+		if err := c11Hold(where("encr.DecodeTransform"), 12, int(a.Value)/8, func() (uint16, int) { return e.TransformID(), e.GetKeyLength() }); err != nil {
+			return err
+		}
+		if err := c11Hold(where("encr.DecodeTransformChildSA"), 12, int(a.Value)/8, func() (uint16, int) { return ek.TransformID(), ek.GetKeyLength() }); err != nil {
+			return err
+		}
 	} else if e != nil || ek != nil {
 		kl := -1
 		if e != nil {
@@ -153,6 +191,16 @@ func c11CheckDecode(id uint16, a c11Attr, viaWire bool) error {
 	if ink != nil && (wantI == nil || ink.TransformID() != id || ink.GetKeyLength() != wantI.KeyLen) {
 		return fmt.Errorf("%s: mapped to a different algorithm", where("integ.DecodeTransformChildSA"))
 	}
+	if in != nil {
+		if err := c11Hold(where("integ.DecodeTransform"), id, wantI.KeyLen, func() (uint16, int) { return in.TransformID(), in.GetKeyLength() }); err != nil {
+			return err
+		}
+	}
+	if ink != nil {
+		if err := c11Hold(where("integ.DecodeTransformChildSA"), id, wantI.KeyLen, func() (uint16, int) { return ink.TransformID(), ink.GetKeyLength() }); err != nil {
+			return err
+		}
+	}
 	if wantI != nil && a.Class == "absent" && (in == nil || ink == nil) {
 		return fmt.Errorf("%s: advertised algorithm reported unsupported", where("integ.DecodeTransform"))
 	}
@@ -172,6 +220,11 @@ func c11CheckDecode(id uint16, a c11Attr, viaWire bool) error {
 	}
 	if pf != nil && (wantP == nil || pf.TransformID() != id || pf.GetKeyLength() != wantP.KeyLen || pf.GetOutputLength() != wantP.KeyLen) {
 		return fmt.Errorf("%s: mapped to a different algorithm", where("prf.DecodeTransform"))
+	}
+	if pf != nil {
+		if err := c11Hold(where("prf.DecodeTransform"), id, wantP.KeyLen, func() (uint16, int) { return pf.TransformID(), pf.GetKeyLength() }); err != nil {
+			return err
+		}
 	}
 	if wantP != nil && a.Class == "absent" && pf == nil {
 		return fmt.Errorf("%s: advertised algorithm reported unsupported", where("prf.DecodeTransform"))
@@ -345,6 +398,9 @@ var c11Advertised = probe.Define("C11", "advertised", func(t *rapid.T) c11AdvIn 
 		if len(got.SK_ei) != ref.Encrs[s.Encr].KeyLen || len(got.SK_ai) != ref.Integs[s.Integ].KeyLen || len(got.SK_d) != ref.Prfs[s.Prf].KeyLen {
 			return probe.Fail("derived key lengths differ from the RFC table")
 		}
+		if err := c11Hold("NewIKESAKey("+eName+")", 12, ref.Encrs[s.Encr].KeyLen, func() (uint16, int) { return got.EncrInfo.TransformID(), got.EncrInfo.GetKeyLength() }); err != nil {
+			return probe.Fail("%v", err)
+		}
 		return probe.OK(true, "ike-proposal")
 	}
 	// Child SA
@@ -402,6 +458,9 @@ var c11Advertised = probe.Define("C11", "advertised", func(t *rapid.T) c11AdvIn 
 	}
 	if !same {
 		return probe.Fail("NewChildSAKeyByProposal maps the proposal to different algorithms")
+	}
+	if err := c11Hold("NewChildSAKeyByProposal("+eName+")", 12, ref.Encrs[s.Encr].KeyLen, func() (uint16, int) { return got.EncrKInfo.TransformID(), got.EncrKInfo.GetKeyLength() }); err != nil {
+		return probe.Fail("%v", err)
 	}
 	return probe.OK(true, "child-proposal")
 })
